@@ -270,7 +270,7 @@ func (ir *ifdReader) ParseSubSecTime(t Tag) uint16 {
 func (ir *ifdReader) parseLensInfo(t Tag) LensInfo {
 	if !t.IsEmbedded() {
 		buf, err := ir.readTagValue()
-		if err != nil {
+		if err != nil || len(buf) < 32 {
 			return LensInfo{}
 		}
 		return LensInfo{
@@ -287,8 +287,11 @@ func (ir *ifdReader) parseLensInfo(t Tag) LensInfo {
 func (ir *ifdReader) ParseRationalU(t Tag) [2]uint32 {
 	switch t.Type {
 	case tag.TypeSignedRational, tag.TypeRational:
+		if t.IsEmbedded() { // no value (count 0): nothing to read
+			return [2]uint32{}
+		}
 		buf, err := ir.readTagValue()
-		if err != nil {
+		if err != nil || len(buf) < 8 {
 			return [2]uint32{}
 		}
 		return [2]uint32{t.ByteOrder.Uint32(buf[:4]), t.ByteOrder.Uint32(buf[4:8])}
@@ -373,13 +376,13 @@ func (ir *ifdReader) ParseBuffer(t Tag) []byte {
 // ParseDate parses an ASCII value as a Date.
 // Non-embedded tag with 20 byte length.
 func (ir *ifdReader) ParseDate(t Tag) time.Time {
-	if t.IsType(tag.TypeASCII) {
+	if t.IsType(tag.TypeASCII) && !t.IsEmbedded() {
 		buf, err := ir.readTagValue()
 		if err != nil {
 			return time.Time{}
 		}
 		// check recieved value
-		if buf[4] == ':' && buf[7] == ':' && buf[10] == ' ' &&
+		if len(buf) >= 19 && buf[4] == ':' && buf[7] == ':' && buf[10] == ' ' &&
 			buf[13] == ':' && buf[16] == ':' {
 			year := parseStrUint(buf[0:4])
 			month := parseStrUint(buf[5:7])
@@ -399,12 +402,12 @@ func (ir *ifdReader) ParseDate(t Tag) time.Time {
 // ParseOffsetTime parses an ASCII value as a Timezone.
 // Non-embedded tag with 6 byte length.
 func (ir *ifdReader) ParseOffsetTime(t Tag) *time.Location {
-	if t.IsType(tag.TypeASCII) {
+	if t.IsType(tag.TypeASCII) && !t.IsEmbedded() {
 		buf, err := ir.readTagValue()
 		if err != nil {
 			return time.UTC
 		}
-		if buf[3] == ':' {
+		if len(buf) >= 6 && buf[3] == ':' {
 			var offset int
 			offset += int(parseStrUint(buf[1:3])) * hoursToSeconds
 			offset += int(parseStrUint(buf[4:6])) * minutesToSeconds
@@ -435,7 +438,7 @@ func (ir *ifdReader) ParseGPSCoord(t Tag) float64 {
 		switch t.Type {
 		case tag.TypeRational, tag.TypeSignedRational: // Some cameras write tag out of spec using signed rational. We accept that too.
 			buf, err := ir.readTagValue()
-			if err != nil {
+			if err != nil || len(buf) < 24 {
 				return 0.0
 			}
 			coord := (float64(t.ByteOrder.Uint32(buf[:4])) / float64(t.ByteOrder.Uint32(buf[4:8])))
@@ -456,7 +459,7 @@ func (ir *ifdReader) ParseGPSAltitude(t Tag) float32 {
 		switch t.Type {
 		case tag.TypeRational, tag.TypeSignedRational: // Some cameras write tag out of spec using signed rational. We accept that too.
 			buf, err := ir.readTagValue()
-			if err != nil {
+			if err != nil || len(buf) < 8 {
 				return 0.0
 			}
 			return (float32(t.ByteOrder.Uint32(buf[:4])) / float32(t.ByteOrder.Uint32(buf[4:8])))
@@ -472,7 +475,7 @@ func (ir *ifdReader) ParseGPSAltitude(t Tag) float32 {
 func (ir *ifdReader) parseGPSTimeStamp(t Tag) uint32 {
 	if t.UnitCount == 3 && t.Type == tag.TypeRational {
 		buf, err := ir.readTagValue()
-		if err != nil {
+		if err != nil || len(buf) < 24 {
 			return 0
 		}
 		var result uint32
@@ -502,18 +505,18 @@ func (ir *ifdReader) parseGPSTimeStamp(t Tag) uint32 {
 
 // parseGPSDateStamp parses a GPSDateStamp from the tag
 func (ir *ifdReader) parseGPSDateStamp(t Tag) time.Time {
-	if t.IsType(tag.TypeASCII) {
+	if t.IsType(tag.TypeASCII) && !t.IsEmbedded() {
 		buf, err := ir.readTagValue()
 		if err != nil {
 			return time.Time{}
 		}
 		// check recieved value
-		if buf[4] == ':' && buf[7] == ':' && len(buf) < 12 {
+		if len(buf) >= 10 && len(buf) < 12 && buf[4] == ':' && buf[7] == ':' {
 			return time.Date(int(parseStrUint(buf[0:4])), time.Month(parseStrUint(buf[5:7])), int(parseStrUint(buf[8:10])), 0, 0, 0, 0, time.UTC)
 		}
 		// check recieved value
-		if buf[4] == ':' && buf[7] == ':' && buf[10] == ' ' &&
-			buf[13] == ':' && buf[16] == ':' && len(buf) > 19 {
+		if len(buf) > 19 && buf[4] == ':' && buf[7] == ':' && buf[10] == ' ' &&
+			buf[13] == ':' && buf[16] == ':' {
 			return time.Date(
 				int(parseStrUint(buf[0:4])),
 				time.Month(parseStrUint(buf[5:7])),
